@@ -78,7 +78,9 @@ Definition diag_eqb (a b : diag) : bool :=
   | DRestNotExists, DRestNotExists | DRestParamType, DRestParamType | DRestAmbiguousBody, DRestAmbiguousBody
   | DRestBadPath, DRestBadPath | DRestFewResults, DRestFewResults | DRestManyResults, DRestManyResults
   | DRestSecondToLast, DRestSecondToLast | DRestLast, DRestLast | DRestNamedResults, DRestNamedResults
-  | DRestReturnType, DRestReturnType | DRestExtract, DRestExtract
+  | DRestReturnType, DRestReturnType | DRestExtract, DRestExtract | DRestArrayReturn, DRestArrayReturn
+  | DEnumNotExists, DEnumNotExists | DDupOutput, DDupOutput
+  | DRestAmbiguousQuery, DRestAmbiguousQuery | DRestNeedsBody, DRestNeedsBody
   | DMapSrcNotExists, DMapSrcNotExists | DMapDestNotExists, DMapDestNotExists | DMapPtrRecv, DMapPtrRecv
   | DMapWriteParam, DMapWriteParam | DMapDupWrite, DMapDupWrite | DMapReadParam, DMapReadParam
   | DMapDupRead, DMapDupRead
